@@ -197,8 +197,11 @@ def finish(chk: Check, seed: int, cmdline: str, write=True) -> int:
     for i in chk.instances:
         by_kind[i.kind] = by_kind.get(i.kind, 0) + 1
     for kind, n in chk.min_counts.items():
-        if by_kind.get(kind, 0) < n:
-            count_errors.append(f"rule {kind}: {by_kind.get(kind, 0)} instances, at least {n} confirmed by hand")
+        # the floor guards against a rule that silently matches (almost) nothing; a refactoring that merges a few sites
+        # (two seeks into one helper, three writes into one) must not trip it: 60 % of the hand-confirmed count
+        floor = max(1, (n * 3) // 5)
+        if by_kind.get(kind, 0) < floor:
+            count_errors.append(f"rule {kind}: {by_kind.get(kind, 0)} instances, fewer than {floor} (60 % of the {n} confirmed by hand)")
     chk.new_violations = new_viol
     chk.undecided_armed = und
     chk.count_errors = count_errors
